@@ -90,6 +90,10 @@ def proto_type(tpe: model.Type) -> str:
     elif tpe.is_int_type() or tpe.is_real_type():
         return f"up:{tpe}"
     elif isinstance(tpe, model.types._UserType):
+        if tpe.name.startswith("up:"):
+            raise UPException(
+                f"The user type name `{tpe.name}` uses the `up:` prefix, reserved to built-in types."
+            )
         return str(tpe.name)
 
 
